@@ -2,7 +2,9 @@
 
     Stream "tree": a sequence of [Add]s on a fresh radixtree.Tree (with the
     repository's values constraint) followed by lookups.  Stream "repo": rule
-    sets loaded into a fresh repository followed by [FindRule]s.  Stream "history":
+    sets loaded into a fresh repository followed by [FindRule]s.  Stream "processor":
+    the same rule sets written as configuration and loaded through the real rule-set processor
+    and rule factory; it is evaluated by the same [check_repo].  Stream "history":
     create / update / delete of rule sets, then [FindRule]s (see below).  A case holds
     the inputs and what the implementation answered.  Per case:
 
@@ -20,8 +22,10 @@
       flags of its rules);
     - conditions are data, capture-aware ([m_cap]): the acceptable ids and, per id, a
       test on the key names / captured values handed to the matcher;
-    - guard 2 (C02-F2: the flag in force is the last Add's) / guard 1 (C02-F1, pinned tree
-      only) fire for the case iff they fire for some lookup that is not a plain pass and
+    - guard 2 (C02-F2: the flag in force is the last Add's) / guard 3 (C02-F3, stream
+      "history" only: a matching expression holds other routes, or the same in another order,
+      than a fresh load of the rule sets in force) / guard 1 (C02-F1, pinned tree only)
+      fire for the case iff they fire for some lookup that is not a plain pass and
       every lookup that is not a plain pass is covered by a guard — an unrelated failure
       in the same case is never excused by a finding. *)
 From HV Require Export Base.Prelude Radix.Spec Radix.Machine Radix.Load Radix.Tree C02.Model.
